@@ -34,7 +34,7 @@ func checkC11(c *Ctx) {
 			RequireFacts(c, p, "C11.guard", fn, AcceptNilErr, nil, []Req{
 				{"NonEmpty(p)", `^0 != len\(p0\)$`},
 				{"Fits(p,SRS)", `^len\(p0\) <= len\(p2\.G1\)$`},
-				{"quotient-committed", `^noerr Commit\(dividePolyByXminusA\(make:.*,local:OpeningProof\.ClaimedValue,p1\),p2,`},
+				{"quotient-committed-or-zero", `^noerr Commit\(dividePolyByXminusA\(|^0 == len\(dividePolyByXminusA\(`},
 			})
 		}
 		if fn := get("Verify"); fn != nil {
